@@ -1,5 +1,24 @@
 package symgo
 
+import (
+	"sync"
+
+	"golang.org/x/tools/go/ssa"
+)
+
+// fnName caches fn.String() (it formats the receiver type on every call; the interpreter asks
+// for it on every call instruction).
+var fnNames sync.Map
+
+func fnName(fn *ssa.Function) string {
+	if n, ok := fnNames.Load(fn); ok {
+		return n.(string)
+	}
+	n := fn.String()
+	fnNames.Store(fn, n)
+	return n
+}
+
 // Helpers added for property C05 (signature-existence index).
 
 func init() {
